@@ -4,13 +4,17 @@
   passes ALL hard and soft rules under the block-creation parameters and the in-block hard constraints;
   the candidate list the block is cut from respects the configured block size and is a prefix of the
   fee-ordered list; the block time is later than the head's; the fee is the checked sum of the
-  transaction fees.  Carried by the correspondence (model vs real publisher on every created block, then
+  transaction fees; the transaction list is sorted by (fee per kB descending, hash ascending) and free of
+  shared inputs; and the created block passes every check of `Blockchain.processBlock` on an independent
+  non-arbitrating node holding the same chain (`created_block_passes_processBlock`, by completeness of the
+  non-arbitrating loops, `Sky/Ledger/Accept.lean`).  Carried by the correspondence (model vs real publisher on every created block, then
   the block is executed on an independent real follower): the exact transaction order (fee per kB
   descending, ties by hash), which of several conflicting transactions is included, and acceptance by
   the follower.
 -/
 import Sky.Ledger.Create
 import Sky.Ledger.Sorted
+import Sky.Ledger.Accept
 namespace Sky.Props.C05
 open Sky Sky.Ledger
 
@@ -141,6 +145,73 @@ theorem created_no_conflict {s : State} {txns r : List Txn} {when_ fee : Nat}
                   · cases h
                     exact (processTransactions_facts hpt).2.1
                   · cases h
+
+/-- the transaction list of a created block is the output of `processTransactions` on the publisher -/
+theorem createBlock_pt {s : State} {txns r : List Txn} {when_ fee : Nat}
+    (h : createBlock s txns when_ = .ok (r, fee)) : ∃ cand, processTransactions s cand = .ok r := by
+  unfold createBlock at h
+  simp only [bind, Except.bind] at h
+  split at h
+  · cases h
+  · split at h
+    · cases h
+    · split at h
+      · cases h
+      · split at h
+        · cases h
+        · split at h
+          · cases h
+          · split at h
+            · cases h
+            · rename_i txns2 hpt
+              split at h
+              · cases h
+              · split at h
+                · cases h
+                · split at h
+                  · cases h; exact ⟨_, hpt⟩
+                  · cases h
+
+/-- **a block the publisher creates passes every check of `Blockchain.processBlock` on an independent,
+non-arbitrating node that holds the same chain** (same unspent set and checksum — which C07 shows are functions
+of the chain): header sequence, time, parent hash and body hash; every transaction's hard constraints; no
+duplicate transaction, no double spend, no output collision inside the block or with the unspent set; the
+block is not re-arbitrated; the unspent checksum matches.  The block is assembled as `coin.NewBlock` does:
+`seq = head+1`, `prev = head hash`, `time = when`, body hash of its own transactions, checksum of the
+publisher's unspent set. -/
+theorem created_block_passes_processBlock {s f : State} {pool r : List Txn} {when_ fee : Nat} {b g last : Block}
+    (h : createBlock s pool when_ = .ok (r, fee))
+    (hu : f.unspent = s.unspent) (hc : f.chain = s.chain) (hx : f.xor = s.xor) (harb : f.cfg.arb = false)
+    (hg : s.chain.head? = some g) (hl : s.chain.getLast? = some last)
+    (hb : b.txns = r) (hseq : b.seq = last.seq + 1) (htime : b.time = when_) (hprev : b.prev = last.hh)
+    (hbody : b.cb = b.body) (huxh : b.uxh = hex16 s.xor) (hnew : (g.hh == b.hh) = false) :
+    processBlock f b = .ok () := by
+  obtain ⟨hwhen, hne, _, _⟩ := created_block_facts h
+  obtain ⟨cand, hpt⟩ := createBlock_pt h
+  obtain ⟨hv, hs, hnd, hfresh⟩ := processTransactions_facts hpt
+  have hh := processTransactions_hashes hpt
+  have hne' : s.chain.isEmpty = false := by
+    cases hcs : s.chain with
+    | nil => rw [hcs] at hg; cases hg
+    | cons a l => rfl
+  have hptf : processTransactions f b.txns = .ok r := by
+    unfold processTransactions
+    rw [hc, hne', harb, hb]
+    simp only [Bool.false_eq_true, if_false]
+    exact ptCore_complete f r hne
+      (fun t ht => by rw [verifyBlockTxn_congr hu hc t]; exact (hv t ht).2) hh hs hnd
+      (fun x hx => by rw [hu]; exact hfresh x hx)
+  have hhdr : verifyBlockHeader f b = .ok () := by
+    unfold verifyBlockHeader
+    have ht : ¬ (b.time ≤ last.time) := by
+      have : headTime s = last.time := by unfold headTime; rw [hl]
+      omega
+    simp only [hc, hl, bind, Except.bind, hseq, hprev, hbody, bne_self_eq_false, Bool.false_eq_true, if_false, ht]
+  have hsame : sameTxns r r = true := by unfold sameTxns; simp
+  rw [hb] at hptf
+  unfold processBlock
+  simp only [hc, hg, hnew, hhdr, bind, Except.bind, Bool.false_eq_true, if_false, hb, hx, huxh,
+    bne_self_eq_false, hptf, hsame, Bool.not_true]
 
 /- FULL conflict clause of the property ("exactly one of two conflicting pending transactions is included,
 the earlier one") is FALSE of code and model in conflict chains X < A < B (X∩A ≠ ∅, A∩B ≠ ∅, X∩B = ∅):
